@@ -22,19 +22,23 @@ Has(f) == f \in DOMAIN E
 VerdictOf(e) == IF "verdict" \in DOMAIN e THEN e.verdict ELSE Verdict(e.q)
 
 CallOk == l <= Len(Rec) /\ E.ev = "call" /\ pc = "idle"
+RefEntries == {"reference", "reference_mut"}
 RetOkOk == l <= Len(Rec) /\ E.ev = "return" /\ pc = "inCall" /\ E.entry = ent /\ E.id = cid
-           /\ E.outcome = "ok" /\ vd \in {"valid", "unscoped"}
+           /\ ent \notin RefEntries /\ E.outcome = "ok" /\ vd \in {"valid", "unscoped"}
 RetErrOk == l <= Len(Rec) /\ E.ev = "return" /\ pc = "inCall" /\ E.entry = ent /\ E.id = cid
-            /\ E.outcome = "err" /\ ent # "js_path_process" /\ vd \in {"invalid", "unscoped"}
+            /\ ent \notin RefEntries /\ E.outcome = "err" /\ ent # "js_path_process" /\ vd \in {"invalid", "unscoped"}
+\* Api!ReturnRef: Some or None, for every string
+RetRefOk == l <= Len(Rec) /\ E.ev = "return" /\ pc = "inCall" /\ E.entry = ent /\ E.id = cid
+            /\ ent \in RefEntries /\ E.outcome \in {"some", "none"}
 
 TCall == /\ CallOk
          /\ pc' = "inCall" /\ ent' = E.entry /\ cid' = E.id
          /\ vd' = (IF Has("q") \/ Has("verdict") THEN VerdictOf(E) ELSE vd)
          /\ l' = l + 1
-TReturn == /\ (RetOkOk \/ RetErrOk)
+TReturn == /\ (RetOkOk \/ RetErrOk \/ RetRefOk)
            /\ pc' = "idle" /\ l' = l + 1 /\ UNCHANGED <<ent, vd, cid>>
 \* anything else is not a behaviour of Api: record it, resynchronise, go on
-TMismatch == /\ l <= Len(Rec) /\ ~CallOk /\ ~RetOkOk /\ ~RetErrOk
+TMismatch == /\ l <= Len(Rec) /\ ~CallOk /\ ~RetOkOk /\ ~RetErrOk /\ ~RetRefOk
              /\ TLCSet(1, Append(TLCGet(1), [line |-> l, event |-> E, expected_verdict |-> vd, in_call |-> pc = "inCall", entry |-> ent]))
              /\ pc' = "idle" /\ l' = l + 1 /\ UNCHANGED <<ent, vd, cid>>
 Next == TCall \/ TReturn \/ TMismatch
